@@ -15,9 +15,11 @@ from . import tables as T
 ID = 'C11'
 RULE = ('one table 1..5 x 1..5 (values counts/small/signed/dyadic/big, every metadata kind, layout recipe), both axes; '
         'partition: labelling by id hash (mod 1..4), by metadata value (entries may lack the key -> None), constant, '
+        'falsy labels that are not None (0, False, 0.0, empty text, empty list) with ignore_none on and off, '
         'injective, list-valued, None for a residue class, labels equal as dict keys (1 / 1.0), dict id->label '
         '(incomplete, unknown ids), dict label->ids as list or tuple (overlapping groups, None key), rejected dicts; '
-        'flags ignore_none x remove_empty; collapse one-to-one: the text-valued labellings and complete dict forms, '
+        'flags ignore_none x remove_empty; collapse one-to-one: the text-valued labellings, dict forms and metadata '
+        'labellings that leave some ids without a label (None is a label like any other there), '
         'norm on/off, min_group_size 0..3, include_collapsed_metadata on/off, bad one_to_many_mode; one-to-many: '
         'generators yielding 0..3 (pathway, group) pairs per vector (duplicates, shared groups, short pathways '
         'raising IndexError), by metadata or by id, add/divide, strict on/off, md key, axes with and without metadata; '
@@ -27,13 +29,15 @@ TRUSTED = ['hand-written model coq/Model/Partition.v tied to biom/table.py:2401-
            'harness.tables.Coder: id codes respect python string order (sorted() of one-to-many groups = sort by code)',
            'extraction (ExtrOcamlBasic only) + ocaml/driver_tail.ml, cross-checked against vm_compute on a sample']
 ASSUMPTIONS = ['the labelling function is deterministic and is evaluated by the harness on the same (id, metadata) pairs',
-               'collapsed labels are text (a label becomes an id); list-valued labels only for partition',
+               'collapsed labels are text or None (a label becomes an id; the id None is rendered as the text None by the snapshot, '
+               'no generated label is that text); list-valued labels only for partition',
                'metadata None and the empty dict are the same observation of "no metadata for this id"',
                "one-to-many 'divide' is compared exactly on the grid 1/(64*lcm(group counts)) (the implementation's "
                'float sums are snapped to that grid when they are within 1e-6 of it)',
                'tables have at least one id on both axes (collapse of a table with an empty axis is known finding F25)']
 
 AXES = ['observation', 'sample']
+FALSY = [0, '', [], None, False, 'x', 0.0, 1]
 _INFO = {}
 
 
@@ -59,6 +63,8 @@ def make_f(d):
         return lambda i, m: None if _h(i, d['mod']) == 0 else 'g%d' % _h(i, d['mod'])
     if k == 'eqkeys':
         return lambda i, m: [1, 1.0, 2, True][_h(i, 4)]
+    if k == 'falsy':       # labels whose truth value is false but which are not None
+        return lambda i, m: copy.deepcopy(FALSY[_h(i, d['mod'])])
     if k == 'idmap':
         return dict(d['map'])
     if k == 'grpmap':
@@ -155,10 +161,15 @@ def gen_labelling(rng, s, axis, for_collapse):
     if s[mdk] is not None and all(m and 'g' in m for m in s[mdk]):
         kinds += ['md', 'md']
     if not for_collapse:
-        kinds += ['list', 'none_some', 'none_some', 'eqkeys'] + (['badmap', 'emptymap'] if rng.random() < 0.5 else [])
+        kinds += ['list', 'none_some', 'none_some', 'eqkeys', 'falsy', 'falsy'] + (['badmap', 'emptymap'] if rng.random() < 0.5 else [])
+    else:
+        kinds += ['none_some']
+    partial = (not for_collapse) or rng.random() < 0.3      # some ids without a label (None)
     k = rng.choice(kinds)
+    if k == 'falsy':
+        return {'kind': 'falsy', 'mod': rng.randint(2, len(FALSY))}
     if k == 'md':
-        if not for_collapse and rng.random() < 0.5:
+        if partial and rng.random() < 0.6:
             for m in s[mdk]:
                 if rng.random() < 0.3:
                     m.pop('g')
@@ -173,7 +184,7 @@ def gen_labelling(rng, s, axis, for_collapse):
         return {'kind': k}
     labs = ['A', 'B', 'C', 'a b'][:rng.randint(1, 4)]
     if k in ('idmap', 'badmap'):
-        mp = [[i, rng.choice(labs)] for i in ids if for_collapse or rng.random() < 0.8]
+        mp = [[i, rng.choice(labs)] for i in ids if not partial or rng.random() < 0.8]
         if not for_collapse and rng.random() < 0.3:
             mp.insert(rng.randint(0, len(mp)), ['not-an-id', rng.choice(labs)])
         if not mp:
@@ -182,7 +193,7 @@ def gen_labelling(rng, s, axis, for_collapse):
     # label -> ids
     groups = {}
     for i in ids:
-        if for_collapse or rng.random() < 0.85:
+        if not partial or rng.random() < 0.85:
             groups.setdefault(rng.choice(labs), []).append(i)
     mp = [[g, members] for g, members in groups.items()]
     if not for_collapse:
@@ -401,6 +412,10 @@ def _md_untree(t, cd):
     return T.md_untree(t)
 
 
+def _unid(cd, c):
+    return 'None' if c == 0 else cd.unid(c)     # a None label becomes the id None; snapshots render it 'None'
+
+
 def _untable(tr, cd, divs=None):
     def md(m):
         return None if not m else [_md_untree(x, cd) for x in m[0]]
@@ -409,7 +424,7 @@ def _untable(tr, cd, divs=None):
         mat = [[cd.unval(k) for k in row] for row in rows]
     else:
         mat = None
-    return {'oids': [cd.unid(c) for c in tr[0]], 'sids': [cd.unid(c) for c in tr[1]], 'mat': mat,
+    return {'oids': [_unid(cd, c) for c in tr[0]], 'sids': [_unid(cd, c) for c in tr[1]], 'mat': mat,
             'omd': md(tr[3]), 'smd': md(tr[4]), 'type': cd.untype(tr[5])}
 
 
@@ -513,7 +528,7 @@ def oracle_collapse(case, obs):
     groups = {}
     for n, lab in enumerate(labels):
         groups.setdefault(lab, []).append(n)
-    want = {lab: rows for lab, rows in groups.items() if len(rows) >= case['min_group_size']}
+    want = {('None' if lab is None else lab): rows for lab, rows in groups.items() if len(rows) >= case['min_group_size']}
     if obs[0] != 'ok':
         return ['collapse raised: %s' % obs]
     r = obs[1]
